@@ -501,6 +501,10 @@ def generate(unit_path):
                 # declared instantiation of a generic impl (R10): the emitted header replaces the source header
                 header = ds[i].arg
                 i += 1
+                if i < len(ds) and ds[i].name == 'qual':
+                    # a second instantiation of the same generic impl: its functions get their own qualified names
+                    block = (block[0], block[1], ds[i].arg)
+                    i += 1
             em.emit(header + ' {', kind='block')
             if d.payload and any(x.strip() for x in d.payload):
                 em.emit('\n'.join(d.payload), kind='verbatim')
